@@ -488,6 +488,20 @@ def _desugar_option_map(f, closures):
         targs = fn.get("args") or []
         if len(targs) < 2:
             continue
+        # only the idiom `opt.map(|x| fallible(x)).transpose()`: the rules read the other uses of a
+        # new closure in place (SCORERCHK, MAPCOMPOSE, LATTICE ..), and writing those out as well
+        # changed their readings for the worse
+        dl = term["dest"]["l"] if not term["dest"]["p"] else None
+        feeds_transpose = False
+        for bb2 in body["blocks"]:
+            t2 = bb2["term"]
+            f2 = ((t2.get("func") or {}).get("k") or {}).get("fn") or {}
+            if t2.get("k") == "call" and f2.get("name") == "transpose" and t2.get("args"):
+                p2 = _op_place(t2["args"][0])
+                if p2 is not None and not p2["p"] and p2["l"] == dl:
+                    feeds_transpose = True
+        if not feeds_transpose:
+            continue
         item_ty, res_ty = c["body"]["locals"][2]["ty"], targs[1]
         clos_ty = body["locals"][cpl["l"]]["ty"]
         sp = term.get("sp")
